@@ -6,7 +6,10 @@ two-pass construction and decryption inverts it; ISAP-A-128A / ISAP-A-128 /
 ISAP-A-80PQ encryption (through a pre-computed key) equals ISAP v2.0, a key
 that is saved and loaded is bit-identical to the original, decrypting with the
 re-loaded key inverts encryption, and the pre-computed key object is unchanged
-by encryption and decryption.  D1 (structural, all lengths): the const
+by encryption and decryption.  D2 (structural, all lengths): no length of
+the SIV / ISAP code loses its upper 32 bits before it bounds a loop or an
+address (av/widths.py), so data beyond 4 GiB is not silently left out of the
+MAC or the keystream.  D1 (structural, all lengths): the const
 pre-computed key parameter is never written (C16.D3 machinery).
 """
 from . import modecheck, modes
@@ -16,8 +19,9 @@ MANIFEST = {
     "text": "decides, per enumerated shape and for all values: SIV encryption = documented two-pass construction "
             "(tag of pass one is the nonce of the keystream pass) and decrypt inverts it; ISAP encryption = ISAP "
             "v2.0 (re-keying bit by bit with sB/sK rounds, sE keystream, sH MAC) for the three variants; "
-            "save/load returns a bit-identical key; the pre-computed key is unmodified by use; lengths beyond the "
-            "shapes are not decided",
+            "save/load returns a bit-identical key; the pre-computed key is unmodified by use; D2 for all lengths: "
+            "no size_t length is masked or narrowed to 32 bits before it bounds a loop or address; other "
+            "behaviour at lengths beyond the shapes is not decided",
     "note": "oracle validated against the published SIV and ISAP KAT vectors",
     "technique": "GF(2)-affine abstract interpretation with uninterpreted permutation symbols against a "
                  "specification oracle",
@@ -44,6 +48,13 @@ def run(rep, tier):
             for (a, n) in (shapes if tier != "quick" else shapes[:4]):
                 cases.append((js, cname, layout, "case_isap", (alg, a, n), "isap %s ad %d message %d" % (alg, a, n),
                               "ascon%s_isap_aead_encrypt" % alg))
+    # structural, all lengths: no size_t length loses its upper bits on the way to a bound or an address
+    from . import widths
+    from .rules_c03 import _inlined_module
+    rep.rule("C06.D2", "length arithmetic keeps the full width of size_t (no 32-bit mask or unguarded narrowing before control/addressing)")
+    for js, cname, layout, maxs, units in prep:
+        widths.rule(rep, "C06.D2", _inlined_module(js), cname, files=("/src/siv/", "/src/isap/"), inlined=True)
+    widths.control(rep, "C06.D2")
     for d in modecheck.run_cases("C06", rid, tier, cases, None):
         rep.merge(d)
     rep.floor_discharged(rid, int(0.9 * len(cases)))
